@@ -62,3 +62,12 @@ func VerifSerializerParts(s Serializer) (*Encoder, *Decoder) {
 	}
 	return nil, nil
 }
+
+// VerifBuiltinNames returns a copy of the built-in type name table.
+func VerifBuiltinNames() map[string]string {
+	m := make(map[string]string, len(_buildInTypeNameMap))
+	for k, v := range _buildInTypeNameMap {
+		m[k] = v
+	}
+	return m
+}
